@@ -108,6 +108,17 @@ def rand_formula(rng, info, bound=None):
         n = rng.choice([1, 1, 2, 3])
         atoms = [rand_atom(rng, info, bound) for _ in range(n)]
         return atoms[0] if n == 1 else ("and", atoms)
+    if rng.random() < 0.08:
+        # a conditional expression as the whole constraint: ONE Python expression (arms without bare comparisons, which the
+        # spec grammar would otherwise take for a comparison constraint); every part may mention symbols
+        def occ():
+            if bound and rng.random() < 0.5:
+                return rng.choice(bound)
+            return ("one", rand_sel(rng, info, depth=1))
+        t = rng.choice(["(int({0}) > 1) if str({1}).isdigit() else (len(str({2})) < 3)", "str({0}).isdigit() if len(str({1})) > 1 else str({2}).startswith('a')",
+                        "True if str({0}) == 'a' else (int({1}) < 3)", "(len(str({0})) % 2) if str({1}).startswith('1') else (len(str({2})) > 1)",
+                        "(not str({0}).isdigit()) if (not len(str({1})) > 2) else ('1' in str({2}))"])
+        return ("atom", t, [occ() for _ in range(t.count("{"))])
     n = rng.choice([1, 1, 1, 2, 3])
     parts = [conj() for _ in range(n)]
     return parts[0] if n == 1 else ("or", parts)
